@@ -140,6 +140,17 @@ def finish_delivery(log, d):
     fut.set_result(None)
 
 
+def fail_delivery(log, d):
+    """the consumer's awaitable raises"""
+    fut, pid = log.pending.pop(d)
+    log.add("cons_fail", d=d, probe=pid)
+    fut.set_exception(ConsumerError("consumer of delivery %d failed" % d))
+
+
+class ConsumerError(Exception):
+    pass
+
+
 def do_emit(log, source, e, x, md, asynchronous=True):
     """producer action: call emit and remember the awaitable"""
     log.add("emit_call", e=e, x=x, md=enc_md(md) if md else [])
